@@ -231,7 +231,7 @@ ScanStep(k, s) ==       \* one iteration of the `while data:' loop
 -----------------------------------------------------------------------------
 (* Part "chain"                                                            *)
 
-Cmts == {"none", "ascii", "utf8", "spaces", "nonutf8", "edgews"}
+Cmts == {"none", "ascii", "utf8", "spaces", "nonutf8", "edgews", "long"}
 ChainCases == [kt : PrivKts, cmt : Cmts]
 
 \* abstract key object / byte string in a chain
